@@ -586,6 +586,15 @@ func register2D() {
 			return out, ""
 		}},
 		{name: "EliminateColinear(1e-8)", sameArea: true, vertSubset: true, apply: func(in *model2d.Mesh) (*model2d.Mesh, string) { return in.EliminateColinear(1e-8), "" }},
+		// a tolerance under which every vertex of a finely sampled arc is "nearly colinear" while the arc as a whole is
+		// not: vertices must stop being eligible as their neighbours go
+		{name: "EliminateColinear(0.3)", vertSubset: true, apply: func(in *model2d.Mesh) (*model2d.Mesh, string) {
+			out := in.EliminateColinear(0.3)
+			if out.NumSegments() < 3 {
+				return out, fmt.Sprintf("rule: %d segments left of a closed outline", out.NumSegments())
+			}
+			return out, ""
+		}},
 		{name: "Subdivide(1)", apply: func(in *model2d.Mesh) (*model2d.Mesh, string) {
 			out := in.Subdivide(1)
 			// corner cutting: every input segment a->b contributes the points 3/4 a + 1/4 b and 1/4 a + 3/4 b
@@ -718,6 +727,12 @@ func register2D() {
 						mid, v := op.apply(in)
 						if judge(op, in, mid, v) != "ok" || !topo.Analyze2(lat.Segs(mid)).Manifold() {
 							return "ok" // the second step is only defined on closed manifold input
+						}
+						// Smooth/SmoothSq take the step that minimises total (squared) length; on a regular polygon that one
+						// step contracts the outline to a point (extent 1e-14, distinct vertices only by rounding). What a
+						// second operation does with such an outline is rounding noise, not a property of the operation.
+						if ext, ext0 := mid.Max().Sub(mid.Min()).Norm(), in.Max().Sub(in.Min()).Norm(); !(ext > 1e-6*ext0) {
+							return "ok"
 						}
 						out, v2 := op2.apply(mid)
 						return judge(op2, mid, out, v2)
